@@ -128,6 +128,20 @@ CHECKS["C04"] = dict(
     technique="Lean 4 per-event theorems over a session model + differential correspondence with the real Proxy under synctest virtual time + trace monitor",
     design="5/C04", engine="proxy")
 
+CHECKS["C01"] = dict(
+    text="Kernel-checked theorems, for every hash function, job, extranonce, submit and difficulty: on well-formed input the "
+         "bytes the Go function hashes (model assembled from tables *regenerated* from ValidateDiffFloat's statements) are exactly "
+         "the 80-byte Bitcoin header version|prevhash|merkle root|ntime|nbits|nonce with the merkle root folded over the branches "
+         "from coinb1|extranonce1|extranonce2|coinb2; the function reports floor(D1/hash) and answers 'meets' iff d*hash <= D1 for "
+         "the exact (possibly fractional) job difficulty d, never for NaN/Inf; for integer d this is share difficulty >= d (so the "
+         "boundary is accepted and boundary+1 refused); only mask-permitted version bits come from the miner; worker name, job id "
+         "text and out-of-mask bits do not influence the verdict; a 5-parameter submit equals a 6-parameter one repeating the job "
+         "version inside the mask. The real ValidateDiffFloat/ValidateDiff run in-process against the model executed with a Lean "
+         "SHA-256 and against the specification (monitor), on real and mined shares at integer boundaries, seeded jobs with "
+         "difficulties aimed at the share's own difficulty to one ulp, and a malformed stream.",
+    technique="Lean 4 proofs over a model assembled from Go->Lean regenerated tables (header layout, version mix, constants) + differential correspondence incl. Lean SHA-256 + specification monitor",
+    design="5/C01", engine="validator")
+
 NOT_YET = {}
 
 ALL = ["C%02d" % i for i in range(1, 21)]
